@@ -10,7 +10,7 @@ RULE = ('random state trees (shapes rand/chain/bushy/two/comb/flat, up to 40 sta
         '(topology class a-h, depth of S, depth of T, depth of current state, init-chain length) tuples among '
         'steps that were transitions')
 CASES = {'quick': 30000, 'thorough': 600000}
-BUDGET = {'quick': 40, 'thorough': 300}
+BUDGET = {'quick': 150, 'thorough': 300}
 REQUIRE = {'transitions': 1000, 'topo_a': 1, 'topo_b': 1, 'topo_c': 1, 'topo_d': 1, 'topo_e': 1,
            'topo_f': 1, 'topo_g': 1, 'topo_h': 1, 'init_chain_after_deep_target': 1}
 ASSUME = ['generated charts are well-formed: handlers return a status, parents form a tree, inits target strict descendants',
